@@ -136,6 +136,10 @@ func newC03World(rt *rapid.T) *c03World {
 				lb = 3 // the proposer of bridge 2 commits a leaf that names bridge 3
 			}
 			to := w.users[rapid.IntRange(0, 3).Draw(rt, "to")].Str
+			if rapid.IntRange(0, 7).Draw(rt, "longSender") == 0 {
+				// L2 sender strings are free-form: 128, 129 or 300 characters
+				from = strings.Repeat("s", rapid.SampledFrom([]int{127, 128, 129, 300}).Draw(rt, "senderLen"))
+			}
 			if rapid.IntRange(0, 5).Draw(rt, "selfWithdrawal") == 0 {
 				from = to // the L2 sender withdraws to the same address string on L1
 			}
@@ -206,7 +210,7 @@ var c03Rich, _ = math.NewIntFromString("1180591620717411303424") // 2^70
 var c03Kinds = []string{"none", "flip-storage", "flip-blockhash", "flip-proof", "version", "seq", "amount", "amount+2^64", "bridge", "index", "swap-from-to",
 	"other-storage", "other-blockhash", "drop-last", "drop-first", "dup-item", "swap-items", "extend", "empty-proof", "cut-to-inner", "other-pos-proof",
 	"from-case", "from-nul", "move-byte", "denom", "to-other-user", "dead-output", "inner-as-root", "to-uppercase",
-	"lengthen-blockhash", "lengthen-storage", "shorten-blockhash", "lengthen-version", "extend-many", "denom-l2-twin", "hex-item", "blank-from", "blank-to"}
+	"lengthen-blockhash", "lengthen-storage", "shorten-blockhash", "lengthen-version", "extend-many", "denom-l2-twin", "hex-item", "blank-from", "blank-to", "from-tail", "to-tail", "reverse-proof"}
 
 // perturb applies one perturbation kind in place; returns false if it does not apply.
 func (w *c03World) perturb(rt *rapid.T, kind string, m *ophosttypes.MsgFinalizeTokenWithdrawal, o *mOutput, pos int) bool {
@@ -350,6 +354,22 @@ func (w *c03World) perturb(rt *rapid.T, kind string, m *ophosttypes.MsgFinalizeT
 		}
 		i := rapid.IntRange(0, len(m.WithdrawalProofs)-1).Draw(rt, "hexitem")
 		m.WithdrawalProofs[i] = []byte(hex.EncodeToString(m.WithdrawalProofs[i]))
+	case "from-tail":
+		// something appended to, or the last character changed in, the sender string
+		if len(m.From) > 0 && rapid.Bool().Draw(rt, "changeLast") {
+			m.From = m.From[:len(m.From)-1] + "~"
+		} else {
+			m.From += "00"
+		}
+	case "to-tail":
+		m.To += "00"
+	case "reverse-proof":
+		if len(m.WithdrawalProofs) < 2 {
+			return false
+		}
+		for i, j := 0, len(m.WithdrawalProofs)-1; i < j; i, j = i+1, j-1 {
+			m.WithdrawalProofs[i], m.WithdrawalProofs[j] = m.WithdrawalProofs[j], m.WithdrawalProofs[i]
+		}
 	case "blank-from":
 		m.From = ""
 	case "blank-to":
